@@ -1102,6 +1102,9 @@ func runC36(p *c36Plan) (string, c36Stats, error) {
 			what = fmt.Sprintf("raw packet type %d of %d bytes", st.Raw[0], len(st.Raw))
 			// nothing is read off the model after a raw packet: the pong alone orders it
 			r.noQuiesce = p.Fast
+			if p.Fast && si+1 < len(p.Steps) && p.Steps[si+1].Op == "raw" && si%32 != 31 {
+				continue // fuzzing: the packets go out back to back, one barrier at the end
+			}
 		case "lclose":
 			if len(r.live) == 0 {
 				continue
